@@ -77,6 +77,15 @@ class C15(Prop):
         for src, want in [("x = 1; (x)++; return x;", 2), ("x = 5; y = x; ((x))--; return [x, y];", [4, 5]), ("function f() { local q; q = 70000; (q)++; return q; } return [f(), f()];", [70001, 70001]),
                           ("t = 0; foreach v in [1, 2] { (v)++; t = t + v; } return t;", 5)]:
             out.append(case(src, [enc_value(want)], "parenthesised-postfix"))
+        # what ++ / compound assignment did to a PARAMETER or LOCAL of a finished call is gone with the call: the next function or loop
+        # that reads a global of the same name sees the global
+        for src, want in [("function bump(n) { n++; return n; } function peek() { return n; } n = 5; bump(n); return peek();", 5),
+                          ("function scale(total, k) { total *= k; return total; } total = 70000; r = scale(total, 2); t2 = 0; foreach x in [1] { t2 = total; } return [r, t2];", [140000, 70000]),
+                          ("function twice(sum) { sum += sum; return sum; } sum = 1; twice(sum); foreach x in [1, 2, 3] { sum += x; } return sum;", 7),
+                          ("function f() { local c; c = 1.5; c++; return c; } function g() { return c; } c = 9; a = f(); return [a, g(), c];", [2.5, 9, 9]),
+                          ("function dec(v) { v--; v--; return v; } v = 10; dec(v); w = 0; while (w < 1) { w++; got = v; } return got;", 10),
+                          ("function h(a, b) { a -= b; return a; } a = 100; b = 1; h(a, 30); function k(b) { return a; } return [k(0), a, b];", [100, 100, 1])]:
+            out.append(case(src, [enc_value(want)] * 2, "after-call", runs=2))
         # strings and booleans
         out.append(case('a = "x"; b = a; b += "y"; return [a, b];', [enc_value(["x", "xy"])], "string"))
         out.append(case('a = "x"; b = a; b = b + "y"; return [a, b, "x"];', [enc_value(["x", "xy", "x"])] * 2, "string", runs=2))
